@@ -216,9 +216,13 @@ namespace cnl {
     public:
         [[nodiscard]] constexpr auto operator()(Input const& from) const
         {
-            // truncate, then step down where truncation rounded up
-            auto const truncated{static_cast<result>(from + half())};
-            return (static_cast<Input>(truncated) > from + half())
+            // truncate toward zero, then round on the exact remainder (adding half() to `from` is
+            // inexact in floating point): >= 1/2 rounds up, < -1/2 rounds down
+            auto const truncated{static_cast<result>(from)};
+            auto const remainder{from - static_cast<Input>(truncated)};
+            return (remainder >= half())
+                         ? _impl::from_rep<result>(static_cast<ResultRep>(_impl::to_rep(truncated) + 1))
+                 : (remainder < -half())
                          ? _impl::from_rep<result>(static_cast<ResultRep>(_impl::to_rep(truncated) - 1))
                          : truncated;
         }
